@@ -54,6 +54,7 @@ func checkC13(w *World, r *Report) {
 
 	exc := newSchedReadException(w, la)
 
+	leafGuard := la.leafGuardedFields()
 	nFuncs := map[*ssa.Function]bool{}
 	for _, ob := range la.sortedAccess() {
 		nFuncs[ob.fn] = true
@@ -67,6 +68,18 @@ func checkC13(w *World, r *Report) {
 		if ob.min >= need {
 			r.OK(rule, key, pos, fmt.Sprintf("lock state ≥ %s in every context (weakest: %s)", need, ob.min))
 			continue
+		}
+		if i := strings.Index(ob.what, "PipelineRunner."); i >= 0 {
+			guarded := false
+			for f, m := range leafGuard {
+				if strings.HasPrefix(ob.what[i+len("PipelineRunner."):], f+" ") || strings.HasPrefix(ob.what[i+len("PipelineRunner."):], f+".") || ob.what[i+len("PipelineRunner."):] == f {
+					r.OK(rule, key, pos, "guarded by the runner's second mutex "+m+": every access to "+f+" in the module lies behind a dominating Lock of it")
+					guarded = true
+				}
+			}
+			if guarded {
+				continue
+			}
 		}
 		if why, ok := exc.covers(ob); ok {
 			r.OK(rule, key, pos, "listed exception, side condition verified: "+why)
